@@ -11,7 +11,7 @@ def prop(id, title, level, rule, runs, assumptions=None, exhaustive_note=None):
 prop("C14", "topic filters and ServeMux dispatch", "exploration",
      "exhaustive: every (filter, topic) pair with filters = words of depth 1..4 over {'',a,b,+,#,a+,#b} plus the empty "
      "string and topics = non-empty words of depth 1..5 over {'',a,b}; random: rapid-generated filters/topics over a larger "
-     "level alphabet (multi-byte runes, embedded wildcards, depth <= 12) and ServeMux registration lists. "
+     "level alphabet (multi-byte runes, embedded wildcards, levels differing in case, known equal-length FNV-32 collision pairs, depth <= 12) and ServeMux registration lists. "
      "Non-trivial = the filter contains a wildcard or an empty level (pairs), or >= 2 registered handlers match one topic "
      "(mux); distinct = distinct (filter, topic) pairs / distinct mux cases (FNV-64 of the case). Topics up to 90 levels, muxes of up to 70 handlers, handlers that register further handlers or dispatch nested messages through their own mux.",
      [
@@ -217,7 +217,7 @@ prop("C12", "retransmissions are faithful", "fault_enumeration",
      assumptions=["a PUBREL whose Write failed does not count as sent for the 'no PUBLISH after PUBREL' rule"])
 
 prop("C08", "broker-side subscriptions converge to the app's calls", "fault_enumeration",
-     E4RULE + "C08: subscription-heavy histories over a small filter alphabet (a, b, a/+, c/#) so that repeats, QoS changes, "
+     E4RULE + "C08: subscription-heavy histories over a small filter alphabet (a, b, a/+, a/b, c/#, c/d, the case variants A and a/B, and long filters) so that repeats, QoS changes, "
      "multi-filter calls, duplicates inside one call and unsubscribes of absent filters are frequent, interleaved with publishes; "
      "cuts on CONNECT / SUBSCRIBE / UNSUBSCRIBE / PUBLISH and held outages; grid session kept / not kept x AlwaysResubscribe x "
      "cleanSession. Oracle: (1) at quiescence (race-free idle barrier) the broker table equals the left fold of the accepted "
@@ -304,7 +304,7 @@ prop("C11", "every blocking call returns on cancel or connection end", "fault_en
      "x phase {dialling (held dialler), connecting (CONNACK withheld), waiting to redial} x {cancel, deadline}. Oracle: every call "
      "returns (20 s bound, goroutine dump on miss); context causes with the link up: errors.Is(err, ctx.Err()); link-end causes: "
      "non-nil error, Done() closed and no goroutine with a (*BaseClient).serve / Connect.func1 frame left. Non-trivial = every "
-     "cell except Disconnect x cause-before-call; distinct = distinct cells + distinct combinations (FNV-64 of the case JSON). Causes include Disconnect (with a short context of its own) and contexts cancelled with a cause; the cause call itself is guarded (a Close that never returns is a verdict); reconnect grid phases also cover a dialler that ignores its context, a CONNECT write that blocks and an established connection with a 25 s ping interval; Liveness polls Done/Err and takes write locks while inbound QoS2 traffic flows.",
+     "cell except Disconnect x cause-before-call; distinct = distinct cells + distinct combinations (FNV-64 of the case JSON). Causes include Disconnect (with a context of its own that ends after 50 ms, or - LiveCtx - never, against a peer that does not close on DISCONNECT) and contexts cancelled with a cause; the cause call itself is guarded (a Close that never returns is a verdict); reconnect grid phases also cover a dialler that ignores its context, a CONNECT write that blocks and an established connection with a 25 s ping interval; Liveness polls Done/Err and takes write locks while inbound QoS2 traffic flows.",
      [dict(tests="^TestVerifC11_Grid$", exhaustive_once=True),
       dict(tests="^TestVerifC11_Combo$", checks_quick=3000, checks_thorough=90000, shards=8),
       dict(tests="^TestVerifC11_Liveness$", checks_quick=60, checks_thorough=1500, shards=8, shards_quick=2),
